@@ -286,7 +286,7 @@ def case_sig(case):
 def static_cases(max_L, max_L_2d, max_color, max_n, seed):
     out = []
     dirs = domain.DIRECTION_POOL
-    for i, c in enumerate(domain.all_code_cases(max_L, max_L_2d, max_color, max_n=max_n)):
+    for i, c in enumerate(domain.all_code_cases(max_L, max_L_2d, max_color, max_n=max_n, thin=True)):
         if c['deformation'] is None:
             continue
         if c['cls'] == 'Color666ToricCode' and c['size'][0] != c['size'][1]:
